@@ -433,6 +433,10 @@ func runC05(c *Ctx) {
 		}
 		_ = json.Unmarshal(c.Replay, &probe)
 		acc := newDtAcc(r)
+		if j.zoneReplay(acc, c.Replay) {
+			acc.flush()
+			return
+		}
 		if probe.Helper != "" {
 			var cs c05CalCase
 			if err := json.Unmarshal(c.Replay, &cs); err != nil {
@@ -468,6 +472,7 @@ func runC05(c *Ctx) {
 	work := dtBuildWork(c, dtSampling(c, j.visit))
 	work = append(work, func(acc *dtAcc) { j.vectors(acc) })
 	work = append(work, j.calWork(c.Quick())...)
+	work = append(work, func(acc *dtAcc) { j.zones(acc); j.dateClocks(acc) })
 	dtRun(c, work)
 	j.agg.flush(r, false)
 }
